@@ -526,6 +526,24 @@ def check_case(ctx, case):
                 d = compare_q(P[i][k], q, rtol=1e-8)
                 if d:
                     probs.append(('violation', 'array-matmul', ['entry (%d,%d)' % (i, k)] + d[:3]))
+        # the scalar branch with a matrix-shaped `data` argument (what eigh / eig / svd / pinv hand over): every element carries its own
+        # union / missing-replica factors
+        import autograd.numpy as anp
+        qa4 = qs[:4]
+        for path, kw, tol in [('autograd', {}, 1e-8)]:        # (array-valued functions are documented as unsupported with num_grad)
+            try:
+                # (array-valued function of the matrix, as the linear-algebra wrappers use it)
+                S = pe.derived_observable(lambda x, **k: anp.array([x[0, 0] * x[1, 1] - x[0, 1] * x[1, 0] + anp.sin(x[1, 0]), x[0, 1] * x[1, 1]]), A, **kw)
+            except Exception as e:
+                probs.append(('violation', 'matrix-data-' + path, 'exception %r' % e))
+                continue
+            grads = [av[1][1], -av[1][0], -av[0][1] + math.cos(av[1][0]), av[0][0]]
+            q = combine(lambda v: v[0] * v[3] - v[1] * v[2] + math.sin(v[2]), grads, qa4)
+            d = compare_q(S[0], q, rtol=tol)
+            q1 = combine(lambda v: v[1] * v[3], [0.0, av[1][1], 0.0, av[0][1]], qa4)
+            d = d or compare_q(S[1], q1, rtol=tol)
+            if d:
+                probs.append(('violation', 'matrix-data-' + path, d[:4]))
         if abs(np.linalg.det(av)) > 0.2:
             try:
                 W = pe.linalg.inv(A)
